@@ -19,6 +19,9 @@ class Untranslatable(Exception):
     pass
 
 
+POISON = object()
+
+
 def dotted(node):
     if isinstance(node, ast.Name):
         return node.id
@@ -39,13 +42,23 @@ class Tr(object):
 
     def atom(self, name, env):
         if name in env:
+            if env[name] is POISON:
+                raise Untranslatable('%s holds a value that was not translated' % name)
             return env[name]
         if name in self.varmap:
             return self.varmap[name]
         raise Untranslatable('free name %s' % name)
 
+    def named(self, n):
+        """a sub-expression the site declaration abstracts by name (its unparsed text is a varmap key)"""
+        if isinstance(n, (ast.Call, ast.Compare, ast.Subscript, ast.BoolOp)):
+            return self.varmap.get(ast.unparse(n))
+        return None
+
     def ex(self, n, env):
         """integer-valued expression"""
+        if self.named(n) is not None:
+            return self.named(n)
         if isinstance(n, ast.Constant) and isinstance(n.value, bool):
             raise Untranslatable('bool constant in integer position')
         if isinstance(n, ast.Constant) and isinstance(n.value, int):
@@ -62,6 +75,8 @@ class Tr(object):
 
     def cond(self, n, env):
         """proposition (decidable) for use under `if` / `decide`"""
+        if self.named(n) is not None:
+            return '(%s = true)' % self.named(n)
         if isinstance(n, ast.Constant) and isinstance(n.value, bool):
             return 'True' if n.value else 'False'
         if isinstance(n, ast.Compare):
@@ -111,12 +126,28 @@ class Tr(object):
             return '(if %s then %s else %s)' % (c, t, e)
         raise Untranslatable(ast.dump(s)[:120])
 
+    def branch(self, node):
+        """index of the branch taken in an if/elif/.../else chain"""
+        k, out, closes = 0, '', 0
+        while True:
+            out += '(if %s then (%d : Int) else ' % (self.cond(node.test, {}), k)
+            closes += 1
+            k += 1
+            if len(node.orelse) == 1 and isinstance(node.orelse[0], ast.If):
+                node = node.orelse[0]
+            else:
+                return out + '(%d : Int)' % k + ')' * closes
+
     def after(self, stmts, env, var):
         """symbolic value of `var` after executing stmts (no returns; if/else merged)"""
         for s in stmts:
             if isinstance(s, ast.Assign) and len(s.targets) == 1:
                 env = dict(env)
-                env[dotted(s.targets[0])] = self.ex(s.value, env)
+                try:
+                    env[dotted(s.targets[0])] = self.ex(s.value, env)
+                except Untranslatable:
+                    # a local that is not an integer (flag, object): poisoned — using it later fails
+                    env[dotted(s.targets[0])] = POISON
             elif isinstance(s, ast.AugAssign) and type(s.op) in BIN:
                 name = dotted(s.target)
                 env = dict(env)
@@ -130,6 +161,9 @@ class Tr(object):
                 for k in keys:
                     a = e1.get(k, env.get(k, self.varmap.get(k)))
                     b = e2.get(k, env.get(k, self.varmap.get(k)))
+                    if a is POISON or b is POISON:
+                        env[k] = POISON
+                        continue
                     if a is None or b is None:
                         raise Untranslatable('variable %s undefined on a path' % k)
                     env[k] = a if a == b else '(if %s then %s else %s)' % (c, a, b)
@@ -205,6 +239,15 @@ def translate(site, repo):
         body, ty = 'decide %s' % tr.cond(find_expr(func, site['marker']), {}), 'Bool'
     elif kind == 'expr':
         body, ty = tr.ex(find_expr(func, site['marker']), {}), 'Int'
+    elif kind == 'branch':
+        node = None
+        for n in ast.walk(func):
+            if isinstance(n, ast.If) and site['marker'] in ast.unparse(n.test):
+                node = n
+                break
+        if node is None:
+            raise Untranslatable('marker %r not found' % site['marker'])
+        body, ty = tr.branch(node), 'Int'
     elif kind == 'after':
         body, ty = tr.after(stmts_matching(func, site['marker']), {}, site['var']), 'Int'
     else:
